@@ -151,6 +151,8 @@ func (server *httpServer) handleHttpRequest(conn net.Conn) string {
 	conn.SetReadDeadline(time.Now().Add(httpReadTimeout))
 	section := 0
 	scanner := bufio.NewScanner(conn)
+	// A body of up to maxContentLength may come without any line break
+	scanner.Buffer(nil, maxContentLength+bufio.MaxScanTokenSize)
 	scanner.Split(func(data []byte, atEOF bool) (int, []byte, error) {
 		found := bytes.Index(data, []byte(crlf))
 		if found >= 0 {
